@@ -214,8 +214,7 @@ def own_side(body):
     return None
 
 
-@rule('I0', ['C02', 'C03', 'C06', 'C08', 'C10', 'C11', 'C18', 'C01'], 'the channel-state invariants I1-I4 and release-on-disconnect are inductive over every critical section of every body (finite abstract domain)')
-def i0(ctx):
+def _i0(ctx, group):
     states = small_states(ctx.k >= 2)
     nsec = 0
     nfeasible = 0
@@ -256,7 +255,7 @@ def i0(ctx):
                         continue
                     nfeasible += 1
                     per_body_feasible[key] = per_body_feasible.get(key, 0) + 1
-                    bad = inv_violations(s)
+                    bad = [x for x in inv_violations(s) if (x.startswith('I6')) == (group == 'I6')]
                     if bad:
                         rk = (key, bad[0].split(':')[0], p.signature())
                         if rk in reported:
@@ -272,6 +271,16 @@ def i0(ctx):
             ctx.violate(key, None, 'no abstract state makes any mutating critical section of this body feasible: the invariant check would be vacuous for it', sig='vacuous-body')
     if nfeasible == 0:
         ctx.violate('<crate>', None, 'anchor missing: no feasible (state, section) pair was found', sig='vacuous')
+
+
+@rule('I0', ['C02', 'C03', 'C08', 'C18', 'C01'], 'the channel-state invariants I1-I4 (kind flag, full-while-senders-wait, len<=capacity, empty-while-receivers-wait) are inductive over every critical section of every body (finite abstract domain)')
+def i0(ctx):
+    _i0(ctx, 'I1-4')
+
+
+@rule('I6', ['C06', 'C10', 'C11'], 'release on disconnect is inductive: after every critical section, a side without handles has no blocked peer left in the wait list (finite abstract domain)')
+def i6(ctx):
+    _i0(ctx, 'I6')
 
 
 # ------------------------------------------------------------------------------------------------------------------
@@ -451,14 +460,16 @@ def eval_count(v, s0, vec_before=0):
     return None
 
 
-@rule('I1', ['C18', 'C03', 'C08', 'C10', 'C11', 'C12', 'C14', 'C19', 'C02', 'C09'], 'single-step conformance with the reference channel: from every small abstract state each entry point has a feasible path, and every feasible path returns the kind of result and reaches the state the reference model prescribes')
-def i1(ctx):
+I1_TITLE = 'single-step conformance with the reference channel (%s): from every small abstract state each entry point has a feasible path, and every feasible path returns the kind of result and reaches the state the reference model prescribes'
+
+
+def _i1(ctx, kinds):
     states = small_states(True)
     npairs = 0
     ops_checked = 0
     for key, b in ctx.facts.bodies.items():
         op = op_of(b)
-        if op is None:
+        if op is None or op[0] not in kinds:
             continue
         ps = b.paths(max(ctx.k, 2))
         ctx.bodies_visited.add(key)
@@ -540,3 +551,28 @@ def i1(ctx):
                     ctx.violate(key, None, 'no path of %s realises the reference behaviour (%s) from state %s' % (key, want, s0.key()), sig='nomatch:' + want)
     ctx.oblige(npairs, sample='%d entry points x %d abstract states: %d feasible (state, path) pairs agree with the reference channel in result kind and post-state' % (ops_checked, len(states), npairs))
     ctx.extra_evidence = {'abstract_states': len(states), 'entry_points': ops_checked, 'feasible_pairs': npairs}
+
+
+@rule('I1s', ['C18', 'C03', 'C08', 'C10', 'C11', 'C14', 'C02', 'C09', 'C01'], I1_TITLE % 'send, send_timeout, send_option_timeout, try_send*, SendFuture::poll')
+def i1s(ctx):
+    _i1(ctx, ('send',))
+
+
+@rule('I1r', ['C18', 'C03', 'C08', 'C10', 'C11', 'C14', 'C02', 'C09', 'C01'], I1_TITLE % 'recv, recv_timeout, try_recv*, ReceiveFuture::poll')
+def i1r(ctx):
+    _i1(ctx, ('recv',))
+
+
+@rule('I1d', ['C19', 'C18', 'C03', 'C14', 'C02', 'C01'], I1_TITLE % 'drain_into')
+def i1d(ctx):
+    _i1(ctx, ('drain',))
+
+
+@rule('I1c', ['C10', 'C18', 'C03', 'C12', 'C05'], I1_TITLE % 'close')
+def i1c(ctx):
+    _i1(ctx, ('close',))
+
+
+@rule('I1h', ['C12', 'C11', 'C10', 'C06', 'C18', 'C03', 'C09'], I1_TITLE % 'Drop and the Clone family of the four handles')
+def i1h(ctx):
+    _i1(ctx, ('drop', 'clone'))
